@@ -631,9 +631,7 @@ func accept(v *vec, hand hx.B, strategy string, sum *hx.Summary) {
 
 var families = []string{"example.org.", "EXAMPLE.org.", "www.example.org.", "a.b.c.example.org.", "A.b.C.example.org.", "c.example.org.",
 	"esc\\.aped.example.org.", "x\\200y.example.org.", "mail.example.org.", "other.test.", "a.other.test.", ".", "org.", "ORG.",
-	"very-long-label-aaaaaaaaaaaaaaaaaaaaaaaaaaaaaaaaaaaaaaaaaaaa.example.org.", "b.very-long-label-aaaaaaaaaaaaaaaaaaaaaaaaaaaaaaaaaaaaaaaaaaaa.example.org.",
-	// other spellings of special octets (decimal escapes of the dot and the backslash) next to their look-alikes
-	"a\\046b.c.example.org.", "x\\092y.example.org.", "xy.example.org."}
+	"very-long-label-aaaaaaaaaaaaaaaaaaaaaaaaaaaaaaaaaaaaaaaaaaaa.example.org.", "b.very-long-label-aaaaaaaaaaaaaaaaaaaaaaaaaaaaaaaaaaaaaaaaaaaa.example.org."}
 
 func randomMsg(r *rand.Rand, pools [][]dns.RR, big bool) *dns.Msg {
 	m := new(dns.Msg)
